@@ -1029,6 +1029,40 @@ func (sc *Scope) trCall(x *ECall) (Term, types.Type) {
 		}
 		dom, _, _ := fc.mapVars(mt)
 		return T(SBool, "(and (not (= %s 0)) %s)", m.S, Select(Select(fc.lookupIn(sc.curEnv(), dom), m), k).S), tBool
+	case "regexliteral":
+		// the pattern a package-level *regexp.Regexp variable is compiled from
+		// (a string constant; lets a lemma pin the pattern a contract relies on)
+		if len(x.Args) != 1 {
+			sc.fail("regexliteral: one argument")
+		}
+		var pkgT *types.Package = sc.pkg
+		gname := ""
+		switch a := x.Args[0].(type) {
+		case *EIdent:
+			gname = a.Name
+		case *ESel:
+			if id, ok := a.X.(*EIdent); ok {
+				if ip := sc.importedPkg(id.Name); ip != nil {
+					pkgT, gname = ip, a.Name
+				}
+			}
+		}
+		if gname == "" || pkgT == nil {
+			sc.fail("regexliteral: argument must name a package-level variable")
+		}
+		sp := fc.eng.Prog.Package(pkgT)
+		if sp == nil {
+			sc.fail("regexliteral: package %s not loaded", pkgT.Path())
+		}
+		g, ok := sp.Members[gname].(*ssa.Global)
+		if !ok {
+			sc.fail("regexliteral: %s is not a package-level variable", gname)
+		}
+		lit, ok := fc.eng.regexInit(g)
+		if !ok {
+			sc.fail("regexliteral: %s is not initialised by regexp.MustCompile(<constant>) or is reassigned", gname)
+		}
+		return StrLit(lit), types.Typ[types.String]
 	case "arr":
 		// identity of a slice's backing array (0 for a nil slice)
 		sl, sty := arg(0)
